@@ -175,7 +175,7 @@ class HistoryUnit(corr.Unit):
             res["after_other_strategy"] = same_run(r1, r1c)
             s3 = sc.Scenario(shift_js(case["js"], 7 * case["weeks"]), "")
             res["shift"] = same_run(r1, plain_run(s3, case["strategy"], case["options"]))
-            if case["strategy"] in ("greedy", "balanced", "distributed"):
+            if case["strategy"] in ("greedy", "balanced", "distributed", "peak_shaving", "balanced_market"):
                 js4 = add_unrelated_gc(case["js"], random.Random(case["seed"]))
                 s4 = sc.Scenario(js4, "")
                 r4 = plain_run(s4, case["strategy"], case["options"])
